@@ -94,6 +94,8 @@ def tla_value(v):
         return '"%s"' % v
     if isinstance(v, (set, frozenset)):
         return "{" + ", ".join(sorted(tla_value(x) for x in v)) + "}"
+    if isinstance(v, (list, tuple)):
+        return "<<" + ", ".join(tla_value(x) for x in v) + ">>"
     raise ValueError(v)
 
 
